@@ -225,16 +225,17 @@ static bool rel_holds(int kind, T fa, T fb)
 template <class T>
 static bool c12_rel_batch(Context& cx, const Rel& r, const Target& tg, const xsv_entry* ea, const xsv_entry* eb, const T* xs, const T* comp, int npos)
 {
-    // the two evaluations are made in separate batches with different companions
+    // the two evaluations are made in separate batches: the second holds the (negated) lanes of the first, rotated.
+    // Companions, when present, sit in both batches (negated alike), so both take the same any()/all() fast paths:
+    // a different path may legitimately change last-place bits (C13) and would not be a symmetry defect.
     const int n = ea->lanes;
     T a[64], b[64], oa[64], ob[64];
     bool ok = true;
     for (int l = 0; l < n; ++l)
     {
-        a[l] = xs[l];
-        b[l] = r.kind == 0 ? xs[l] : (T)-xs[l];
+        a[l] = (comp && (l & 1)) ? comp[l % 8] : xs[l];
+        b[l] = r.kind == 0 ? a[l] : (T)-a[l];
     }
-    // second batch: rotate the lanes and replace every other one by a companion
     T b2[64];
     int map[64];
     for (int l = 0; l < n; ++l)
@@ -242,11 +243,6 @@ static bool c12_rel_batch(Context& cx, const Rel& r, const Target& tg, const xsv
         int src = (l + npos) % n;
         map[l] = src;
         b2[l] = b[src];
-        if (comp && (l & 1))
-        {
-            b2[l] = comp[l % 8];
-            map[l] = -1;
-        }
     }
     CallResult ca = call<T>(cx, tg, ea, a, nullptr, oa);
     CallResult cb = call<T>(cx, tg, eb, b2, nullptr, ob);
@@ -265,7 +261,7 @@ static bool c12_rel_batch(Context& cx, const Rel& r, const Target& tg, const xsv
             {
                 static const char* kn[] = { "must be bit-identical", "odd symmetry f(-x) == -f(x) must hold bit for bit", "even symmetry f(-x) == f(x) must hold bit for bit" };
                 Violation v = math_viol<T>(cx, r.a, tg, n, a, b2, map[l], lane_str(prec<T>::tid, &oa[map[l]]), lane_str(prec<T>::tid, &ob[l]),
-                                           std::string(r.a) + "(x) vs " + r.b + (r.kind ? "(-x)" : "(x)") + ": " + kn[r.kind] + " (second evaluation in another batch, lane " + std::to_string(l) + ", different companions)");
+                                           std::string(r.a) + "(x) vs " + r.b + (r.kind ? "(-x)" : "(x)") + ": " + kn[r.kind] + " (second evaluation in another batch, rotated by " + std::to_string(npos) + ", lane " + std::to_string(l) + ")");
                 v.extra = ",\"relation\":" + jstr(std::string(r.a) + "|" + r.b + "|" + std::to_string(r.kind));
                 cx.add_violation(v);
             }
